@@ -175,7 +175,9 @@ CHECKS = {
          "X-binfmt: writer bytes, reader, five entry points, bad header at every position of 1..4 chunks. Source-derived: "
          "SRC_fmt_constants_are_model / _to_bytes_is_model / _python_roundtrip / _kernel_reads_what_python_writes (10 theorems) "
          "about MAGIC_NUMBER, CURRENT_VERSION, to_bytes, to_integer and the error codes as read from the current text of "
-         "preprocess.py, ndl_parallel.pyx and error_codes.pxd, re-checked on every run.",
+         "preprocess.py, ndl_parallel.pyx and error_codes.pxd, re-checked on every run (strict: a failure without a failing input is "
+         "reported as no-failing-input-found); 3 lenient theorems about the structure of the readers in the text (canonical header "
+         "check in every kernel, fread/read widths, buffer capacities).",
          "5 C06", "Coq proof (codec round-trip, header decision; source-derived theorems re-checked against the constants and word helpers translated from the current source) + byte-exact differential correspondence"),
 }
 
